@@ -250,10 +250,27 @@ pub fn run_case(name: &str, opname: &str, front: &str, rep: &mut Report) -> Vec<
     // the world; after the handle is built the link is re-pointed at a second, empty directory.  The configured path
     // now names that directory: this is where the operation acts, and the old one is none of its business any more.
     let retarget = front.contains('~');
-    let front_owned = front.replace("@.", "").replace('@', "").replace('~', "");
+    // "plain%" / "sharded%": every `.kismet_temp` of the write side is a regular file (the name is taken): whatever
+    // the library then does about staging, nothing lands among the entries under another name than the key's
+    let squatted = front.contains('%');
+    let front_owned = front.replace("@.", "").replace('@', "").replace('~', "").replace('%', "");
     let front = front_owned.as_str();
     let (cfg, mut dirs, outer) = build_world(&sc, front);
     let old_cache = dirs.write.clone();
+    if squatted {
+        let mut homes = vec![dirs.write.clone()];
+        if front == "sharded" {
+            homes.extend((0..3).map(|s| dirs.write.join(ops::shard_dir_name(s))));
+        }
+        shim::passthrough(|| {
+            for h in homes {
+                std::fs::create_dir_all(&h).unwrap();
+                let t = h.join(".kismet_temp");
+                let _ = std::fs::remove_dir_all(&t);
+                std::fs::write(&t, b"not a directory").unwrap();
+            }
+        });
+    }
     if retarget {
         let link = outer.join("current");
         shim::passthrough(|| {
@@ -575,7 +592,7 @@ pub fn run(tier: Tier, shard: Shard, rep: &mut Report) {
          direct-child entry, plus a monitor on every mutating call's path; every name of length <= 2 (thorough 3) and the edge names \
          again in a world where maintenance is due (over capacity, stale debris in .kismet_temp, trigger firing): a reserved name (empty, or starting with '.', '/', '\\') is \
          rejected with InvalidInput and leaves that world unchanged too, and whatever the name, application dot-files (one of them not \
-         valid UTF-8) are neither deleted nor re-stamped by the maintenance. Every name of length <= 2 again with the write side configured through a symbolic link that is re-pointed at another directory after the handle was built (the operation acts where the configured path now leads, the old directory stays as it is). Every name of length <= 2 again on a plain cache named by the empty path and by a single dot (working directory = the cache directory): same oracle, entries land directly in that directory. Each publication step of writes under four accepted names refused in every plausible way \
+         valid UTF-8) are neither deleted nor re-stamped by the maintenance. Every name of length <= 2 again with the name .kismet_temp taken by a regular file in every directory of the write side (staging files never land among the entries). Every name of length <= 2 again with the write side configured through a symbolic link that is re-pointed at another directory after the handle was built (the operation acts where the configured path now leads, the old directory stays as it is). Every name of length <= 2 again on a plain cache named by the empty path and by a single dot (working directory = the cache directory): same oracle, entries land directly in that directory. Each publication step of writes under four accepted names refused in every plausible way \
          (EXDEV, EMLINK, ...): every mutating call still lands on the key's own entry or in the cache's own structure. Plus, under concurrency (all schedules with <= 2 preemptions of a maintaining writer racing with a deleter or another \
          writer, sentinel files named like the entries one directory up): every mutating call lands inside the cache's own \
          directories. Non-trivial = accepted-by-first-byte name containing a separator, NUL, '..' or of extreme length.",
@@ -612,6 +629,19 @@ pub fn run(tier: Tier, shard: Shard, rep: &mut Report) {
                 }
                 rep.count("maintenance_due_cases", 1);
                 record(name, op, &format!("{}+maint", front), rep);
+            }
+        }
+    }
+    // the name .kismet_temp taken by a regular file in every directory of the write side
+    for name in &names(2) {
+        for op in OPS.iter() {
+            for front in ["plain%", "sharded%", "stack%"] {
+                no += 1;
+                if !shard.mine(no) {
+                    continue;
+                }
+                rep.count("squatted_temp_name_cases", 1);
+                record(name, op, front, rep);
             }
         }
     }
